@@ -43,11 +43,17 @@ IsPrefix(a, b) == Len(a) <= Len(b) /\ SubSeq(b, 1, Len(a)) = a
 PrefixIndependent(snapA, snapB, finalA, finalB) == snapA = snapB /\ IsPrefix(snapA, finalA) /\ IsPrefix(snapB, finalB)
 
 \* the libyaml defect D6 as a shape: the documents that came back are the input documents without some documents whose
-\* root is an empty scalar with neither anchor nor tag (what an implicit document start in front of nothing reads as)
-EmptyRootDoc(d) == Len(d) = 3 /\ LET e == H!Norm(d[2]) IN e.k = "Scalar" /\ e.v = <<>> /\ e.a = <<>> /\ e.t = <<>>
-RECURSIVE LostEmptyDocs(_, _, _)
-LostEmptyDocs(din, dout, n) ==
+\* root is an empty scalar without anchor (for which an emitter may write nothing at all)
+EmptyRootDoc(d) == Len(d) = 3 /\ LET e == H!Norm(d[2]) IN e.k = "Scalar" /\ e.v = <<>> /\ e.a = <<>>
+\* "u" when some empty-root document of the input carries no tag at all, "t" when all of them carry a (possibly elidable) tag
+EmptyRootKind(din) == IF \E j \in DOMAIN din : EmptyRootDoc(din[j]) /\ H!Norm(din[j][2]).t = <<>> THEN "u" ELSE "t"
+\* onlyTagged: only empty-root documents that carry a tag may be dropped
+RECURSIVE LostEmptyDocsK(_, _, _, _)
+LostEmptyDocsK(din, dout, n, onlyTagged) ==
   IF din = <<>> THEN dout = <<>> /\ n > 0
-  ELSE \/ dout # <<>> /\ H!FirstBad(Head(din), Head(dout), 1).at = 0 /\ LostEmptyDocs(Tail(din), Tail(dout), n)
-       \/ EmptyRootDoc(Head(din)) /\ LostEmptyDocs(Tail(din), dout, n + 1)
+  ELSE \/ dout # <<>> /\ H!FirstBad(Head(din), Head(dout), 1).at = 0 /\ LostEmptyDocsK(Tail(din), Tail(dout), n, onlyTagged)
+       \/ EmptyRootDoc(Head(din)) /\ (onlyTagged => H!Norm(Head(din)[2]).t # <<>>) /\ LostEmptyDocsK(Tail(din), dout, n + 1, onlyTagged)
+LostEmptyDocs(din, dout, n) == LostEmptyDocsK(din, dout, n, FALSE)
+\* "t" when the loss is explained by tagged empty roots alone, else "u"
+LostKind(din, dout) == IF LostEmptyDocsK(din, dout, 0, TRUE) THEN "t" ELSE "u"
 =============================================================================
